@@ -21,11 +21,12 @@ MANIFEST = dict(
          "any sign), stream(seq), Subsequences (binary counter), CartesianPower (mixed radix), Combinations (every n and k; default len) and, by exhaustive "
          "computation lifted with forallb_forall, Permutations of at most 6 things; each constructor enumerates exactly its documented set without repetition in the documented order; "
          "lazy map/filter/zip list map/filter/zip of the inner lists; reverse/last/in/truthiness/unpacking are the list functions of list(s); consumers that hold a "
-         "second reference never advance the variable's stream; iota/repeat/cycle/iterate prefixes follow their recurrences and len is infinite. The model is tied to "
+         "second reference never advance the variable's stream; iota/repeat/cycle/iterate prefixes follow their recurrences and len is infinite; n-ary lazy_zip (with or without a function), "
+         "Repeat's slice override and lazy_map/lazy_filter with raising callbacks (the error is the last item; list(s) is mapM f) are characterised too. The model is tied to "
          "/repo on every run by programs that bind each small stream state to a variable and apply a random order of observations, compared with the model and with Python itertools/range.",
     note="Trusted: Coq kernel; hand-written model Seq/Streams.v (tie to the code is the correspondence run, differential testing); extraction + OCaml runner; Rust harness; "
-         "Python oracle. The Permutations theorems are bounded (base length <= 6, stated in the theorem). Element functions of lazy_map/lazy_filter/lazy_zip/iterate are total "
-         "in the model (erroring or `break`ing callbacks are not modelled). Known finding (one class): len of a finite range/permutations/subsequences/cartesian power with >= 2^64 elements "
+         "Python oracle. The Permutations theorems are bounded (base length <= 6, stated in the theorem). `break`ing callbacks, erroring iterate/zip functions and the consumers' handling of an error item are "
+         "correspondence-only (runner + oracle), the stream side of raising lazy_map/lazy_filter callbacks is modelled and proved. Known finding (one class): len of a finite range/permutations/subsequences/cartesian power with >= 2^64 elements "
          "reports infinity because Option<usize> cannot hold the count. Negative indices/slices of infinite streams other than repeat/cycle are outside the property.",
     design="6-C11")
 
@@ -88,6 +89,16 @@ def render(d):
         return f"({render(d[1])} lazy_filter (\\x -> x % 2 == 0))"
     if k == "zip":
         return "lazy_zip(" + ", ".join(render(x) for x in d[1]) + ")"
+    if k == "zipf":
+        names = [f"a{i}" for i in range(len(d[1]))]
+        body = names[0]
+        for nm in names[1:]:
+            body = f"({body} * 100 + {nm})"
+        return "lazy_zip(\\" + ", ".join(names) + " -> " + body + ", " + ", ".join(render(x) for x in d[1]) + ")"
+    if k == "emap":
+        return f"({render(d[2])} lazy_map (\\x -> if (x == {lit(d[1])}) throw \"boom\" else x * 2 + 1))"
+    if k == "efilter":
+        return f"({render(d[2])} lazy_filter (\\x -> if (x == {lit(d[1])}) throw \"boom\" else x % 2 == 0))"
     raise ValueError(d)
 
 
@@ -105,8 +116,10 @@ def model_tokens(d):
         return f"{k} {d[1]} {d[2]}"
     if k in ("map", "filter"):
         return f"{k} " + model_tokens(d[1])
-    if k == "zip":
-        return f"zip {len(d[1])} " + " ".join(model_tokens(x) for x in d[1])
+    if k in ("zip", "zipf"):
+        return f"{k} {len(d[1])} " + " ".join(model_tokens(x) for x in d[1])
+    if k in ("emap", "efilter"):
+        return f"{k} {d[1]} " + model_tokens(d[2])
     raise ValueError(d)
 
 
@@ -153,6 +166,13 @@ def py_iter(d):
         return (x for x in py_iter(d[1]) if x % 2 == 0)
     if k == "zip":
         return (list(t) for t in zip(*[py_iter(x) for x in d[1]]))
+    if k == "zipf":
+        def fold(t):
+            acc = t[0]
+            for x in t[1:]:
+                acc = acc * 100 + x
+            return acc
+        return (fold(t) for t in zip(*[py_iter(x) for x in d[1]]))
     raise ValueError(d)
 
 
@@ -190,7 +210,7 @@ def count(d):
         if c == math.inf or c > 100000:
             return c  # (only used to classify; every filtered inner here has endlessly many even elements)
         return sum(1 for _ in py_iter(d))
-    if k == "zip":
+    if k in ("zip", "zipf"):
         return min(count(x) for x in d[1])
     raise ValueError(d)
 
@@ -308,10 +328,83 @@ def prefix_observations(ctx, d, k, cnt, uid):
             out.append(Obs("idx", [i], f"s[{lit(i)}]", f"idx {i}", "ok " + canon(xs[(pos + i) % n])))
         for i in (I63, -I63 - 1, "f", "x"):
             out.append(Obs("idx", [i], f"s[{idx_lit(i)}]", f"idx {i}", "err"))
+        if d[0] == "repeat":
+            # Repeat's slice override: a negative bound counts back from the infinitely far end
+            bs = [None] + list(range(-6, 7))
+            prs = [(rng.choice(bs), rng.choice(bs)) for _ in range(6)] + \
+                  [(rng.choice([-I63, -I63 + 1, I63 - 1]), rng.choice(bs)), (rng.choice(bs), rng.choice([-I63, I63 - 1, 2 ** 62])),
+                   (None, 2 ** 62), (-I63, None), (-I63, -I63 + 3), (I63 - 4, I63 - 1)]
+            for a, b in prs:
+                A = "" if a is None else lit(a)
+                B = "" if b is None else lit(b)
+                out.append(Obs("rslice", [a, b], f"s[{A}:{B}]", f"slice {'_' if a is None else a} {'_' if b is None else b}",
+                               repeat_slice_oracle(d[1], a, b)))
         m = rng.randrange(1, 12)
         out.append(Obs("revtake", [m], f"reverse(s) take {m}", f"revtake {m}",
                        "ok " + canon([xs[(pos - 1 - j) % n] for j in range(m)])))
     return out, P
+
+
+def repeat_slice_oracle(x, a, b):
+    """x, x, x, ... without end: a bound >= 0 is a position, a bound < 0 is that far before the (infinitely
+    far) end, a missing upper bound is the end itself. Widths beyond any allocation are an error."""
+    a_end = a is not None and a < 0
+    b_end = b is None or b < 0
+    if a_end and not b_end:
+        return "ok L[]"                      # starts beyond every finite position
+    if not a_end and b_end:
+        return "ok T[" + ",".join([canon(x)] * 64) + ",...]"   # never ends: the stream itself
+    w = max((0 if b is None else b) - (0 if a is None else a), 0)
+    if w > 2 ** 40:
+        return "err"
+    return "ok " + canon([x] * w)
+
+
+def erroring_items(d):
+    """items of a lazy_map / lazy_filter whose callback raises on the element d[1]: values, then "ERR" last"""
+    out = []
+    for x in py_iter(d[2]):
+        if x == d[1]:
+            out.append("ERR")
+            break
+        if d[0] == "emap":
+            out.append(x * 2 + 1)
+        elif x % 2 == 0:
+            out.append(x)
+    return out
+
+
+def erroring_case(ctx, d, k):
+    """a stream whose callback raises: the error is the last item; consumers that reach it raise it"""
+    rng = ctx.rng
+    I = erroring_items(d)[k:]
+    n = len(I)
+    bad = "ERR" in I
+    vals = [x for x in I if x != "ERR"]
+
+    def val(L):
+        return "err" if "ERR" in L else "ok " + canon(L)
+    obs = [Obs("len", [], "len(s)", "len", "ok " + canon(n)),
+           Obs("truthy", [], "if (s) 1 else 0", "truthy", "ok " + canon(n != 0)),
+           Obs("list", [], "list(s)", "list", val(I)),
+           Obs("iter", [], "for (x <- s) yield x", "list", val(I)),
+           Obs("reverse", [], "reverse(s)", "reverse", val(I[::-1])),
+           Obs("first", [], "first(s)", "idx 0", ("err" if not I or I[0] == "ERR" else "ok " + canon(I[0])))]
+    for i in rng.sample(range(0, n + 2), min(3, n + 2)):
+        obs.append(Obs("idx", [i], f"s[{i}]", f"idx {i}", "err" if i >= n or I[i] == "ERR" else "ok " + canon(I[i])))
+    for _ in range(3):
+        a, b = rng.randrange(0, n + 2), rng.randrange(0, n + 2)
+        obs.append(Obs("slice", [a, b], f"s[{a}:{b}]", f"slice {a} {b}", val(I[a:b])))
+    t = rng.randrange(0, n + 2)
+    obs.append(Obs("take", [t], f"s take {t}", f"slice _ {t}", val(I[:t])))
+    for x in (vals[:1] + vals[-1:] + [99]):
+        exp = "ok I1" if x in vals else ("err" if bad else "ok I0")
+        obs.append(Obs("in", [x], f"{canon_src(x)} in s", f"in {canon(x)}", exp))
+    rng.shuffle(obs)
+    j = len(vals)
+    obs.append(Obs("unchanged", [], f"s take {j}", f"slice _ {j}", "ok " + canon(vals)))
+    setup = f"s := {render(d)}" + (f" drop {k}" if k else "")
+    return dict(desc=d, k=k, setup=setup, obs=obs, kind="erroring", n=n)
 
 
 # ----------------------------------------------------------------------------- states
@@ -384,6 +477,18 @@ def all_states(ctx):
         m = rng.choice([2, 2, 3])
         parts = [rng.choice(inner + [("perm", 3), ("subs", 2), ("repeat", 7)]) for _ in range(m)]
         with_drops(("zip", parts), False)
+    ints = [x for x in inner if x[0] != "iterate"] + [("repeat", 7)]
+    for _ in range(ctx.n(120, 600)):
+        m = rng.choice([2, 2, 3, 4])
+        with_drops(("zipf", [rng.choice(ints) for _ in range(m)]), False)
+    for d in [x for x in inner if x[0] in ("til", "wvec")] + [("iota", 1)]:
+        first = list(itertools.islice(py_iter(d), 0, 8))
+        for kk in sorted(set(first[:1] + first[2:3] + first[-1:] + [77])):
+            for kind in ("emap", "efilter"):
+                for k in (0, 1, 3):
+                    if (kind, d[0], kk) == ("efilter", "iota", 77) or (d[0] == "iota" and kk == 77):
+                        continue  # (an endless stream whose callback never raises: not an erroring case)
+                    S.append(((kind, kk, d), k))
     return S
 
 
@@ -392,6 +497,8 @@ def is_ctor_error(d):
 
 
 def build_case(ctx, d, k, uid):
+    if d[0] in ("emap", "efilter"):
+        return erroring_case(ctx, d, k)
     cnt = count(d)
     setup = f"s := {render(d)}" + (f" drop {k}" if k else "")
     if cnt == math.inf or cnt - k > LONG:
@@ -610,7 +717,7 @@ def run(ctx):
                 "arguments); every one is non-trivial in that its expected value is computed from the stream's element list by the Python reference "
                 "(range/itertools), and the last statement of every program re-lists the variable to check that nothing advanced it",
         "by_constructor_states": by_ctor, "by_observation": by_obs,
-        "state_kinds": {k: sum(1 for c in cases if c["kind"] == k) for k in ("finite", "endless", "long")},
+        "state_kinds": {k: sum(1 for c in cases if c["kind"] == k) for k in ("finite", "endless", "long", "erroring")},
         "model_compared": sum(1 for c in cases for o in c["obs"] if o.model),
         "samples": [{"program": [c["setup"]] + [o.src for o in c["obs"]], "implementation": c.get("impl")} for c in cases[::step]][:10],
     })
